@@ -7,6 +7,7 @@ Vocabulary: `segments s` = the components of `s.split("/")` other than `""` and 
 `Clean c` = `c` is a non-empty component other than `.` and `..` that contains no `/`.
 -/
 import WzVerif.Lemmas.Paths
+import WzVerif.Model.StaticFiles
 namespace Wz.Props.C14
 open Wz Wz.Paths
 
@@ -90,6 +91,84 @@ theorem safe_join_refuses (alts : List Char) (d : Str) (pre post : List Str) (f 
   simp [safeJoinWith, this]
 
 example : safeJoinWith [] "/srv".toList ["a".toList, "b/../..".toList] = none := by decide
+
+/-- `p` is lexically inside directory `d`: the normalised segments of `d` are a prefix of those of
+`p`, what follows is clean (no `..`), and the root class is the same -/
+def Inside (d p : Str) : Prop :=
+  ∃ extra, segments (normpath p) = segments (normpath d) ++ extra ∧ (∀ c ∈ extra, Clean c) ∧
+    initialSlashes (normpath p) = initialSlashes (normpath d)
+
+/-- **The static-file helpers never open a file outside their root.** For every request path (any
+text: what is left after percent-decoding, incl. `..`, `//`, NUL, backslashes), every directory and
+every state of the file system (`isfile` is an arbitrary predicate):
+* whatever `send_from_directory` sends lies inside `directory` (and is a file);
+* whatever `SharedDataMiddleware` serves comes from one of its exports `(search_path, directory)`
+  and either lies inside that `directory` or is the export itself requested by its exact key. -/
+theorem served_path_inside_root (isfile : Str → Bool) :
+    (∀ d path p, sendFromDirectory isfile d path = some p → Inside d p ∧ isfile p = true) ∧
+    (∀ exports path p, sharedData isfile exports path = some p →
+      ∃ e ∈ exports, isfile p = true ∧ ((e.1 = path ∧ p = e.2) ∨ Inside e.2 p)) := by
+  have hload : ∀ d rel p, directoryLoader isfile d (some rel) = some p → Inside d p ∧ isfile p = true := by
+    intro d rel p h
+    simp only [directoryLoader] at h
+    cases hj : safeJoin d [rel] with
+    | none => simp [hj] at h
+    | some q =>
+      simp only [hj] at h
+      split at h
+      · rename_i hf
+        cases h
+        exact ⟨safe_join_contained _ d [rel] _ hj, hf⟩
+      · cases h
+  refine ⟨?_, ?_⟩
+  · intro d path p h
+    simp only [sendFromDirectory] at h
+    cases hj : safeJoin d [path] with
+    | none => simp [hj] at h
+    | some q =>
+      simp only [hj] at h
+      split at h
+      · rename_i hf
+        cases h
+        exact ⟨safe_join_contained _ d [path] _ hj, hf⟩
+      · cases h
+  · intro exports
+    induction exports with
+    | nil => intro path p h; simp [sharedData] at h
+    | cons e rest ih =>
+      obtain ⟨search, d⟩ := e
+      intro path p h
+      simp only [sharedData] at h
+      generalize (if search.getLast? = some '/' then search else search ++ ['/']) = sp at h
+      split at h
+      · rename_i f hexact
+        cases h
+        split at hexact
+        · rename_i heq
+          simp only [directoryLoader] at hexact
+          split at hexact
+          · rename_i hf
+            cases hexact
+            exact ⟨(search, d), by simp, hf, Or.inl ⟨heq, rfl⟩⟩
+          · cases hexact
+        · cases hexact
+      · split at h
+        · rename_i f hsub
+          cases h
+          split at hsub
+          · obtain ⟨h1, h2⟩ := hload d _ p hsub
+            exact ⟨(search, d), by simp, h2, Or.inr h1⟩
+          · cases hsub
+        · obtain ⟨e, he, h1⟩ := ih path p h
+          exact ⟨e, List.mem_cons_of_mem _ he, h1⟩
+
+example : sendFromDirectory (fun _ => true) "/srv/root".toList "a/../b.txt".toList
+    = some "/srv/root/b.txt".toList := by decide
+example : sendFromDirectory (fun _ => true) "/srv/root".toList "../secret".toList = none := by decide
+example : sharedData (fun p => p == "/srv/root/x.css".toList) [("/static".toList, "/srv/root".toList)]
+    "/static/x.css".toList = some "/srv/root/x.css".toList := by decide
+example : sharedData (fun _ => true) [("/static".toList, "/srv/root".toList)]
+    "/static/../../etc/passwd".toList = none := by decide
 
 /-- Sanitised names use only `[A-Za-z0-9_.-]` (so they are ASCII), whatever the input and whatever
 the Unicode normalisation did before. -/
